@@ -12,7 +12,9 @@ pub struct Factors(pub usize, pub Vec<Rc<String>>);
 
 impl cmp::PartialOrd for Factors {
     fn partial_cmp(&self, other: &Factors) -> Option<cmp::Ordering> {
-        Some(self.0.cmp(&other.0))
+        // Must agree with the derived Ord: BinaryHeap orders its elements with
+        // the comparison operators, and `dedup` only removes adjacent duplicates.
+        Some(self.cmp(other))
     }
 }
 
